@@ -583,7 +583,7 @@ impl Printer {
                 let head_is_id = matches!(**head, T::Id);
                 match &**head {
                     T::Id => {}
-                    T::Call(..) | T::Var(_) | T::Str(..) | T::Arr(_) | T::Obj(_) | T::Path(..) => self.term(head, out),
+                    T::Call(..) | T::Var(_) | T::Str(..) | T::Arr(_) | T::Obj(_) => self.term(head, out),
                     _ => self.paren(head, out),
                 }
                 for (i, (p, opt)) in parts.iter().enumerate() {
